@@ -391,3 +391,33 @@ package actions
 //@   ensures wakes: [C10] err == nil ==> (forall d Id :: deliveries.completed_at$null(d) != old(deliveries.completed_at$null(d)) ==> wake_on_commit(deref(a.params.SubscriptionID)))
 //@   ensures no_swallowed_failure: [C09] dbfailed() && !old(dbfailed()) ==> err != nil
 //@   modifies T:deliveries:completed_at, T:deliveries:completed_at$null, T:deliveries:expires_at, T:deliveries:attempt_at, S:dbfailed, S:wake_on_commit, F:actions.SeekSubscriptionToSnapshot:*, F:actions.seekSubscriptionResults:*
+
+// ---- C01/C05/C07/C14: one delivery per accepting subscription.
+// deliverToSubscription returns a delivery-create builder iff the subscription's filter accepts the message;
+// the builder carries message, subscription, expiry = now + retention, attempt = now + delivery delay, and, on
+// an ordered subscription for a keyed message, the ordering predecessor: the latest-published unexpired
+// delivery of the same subscription whose message has the same ordering key.
+//@ func deliverToSubscription(ctx, tx, s, m, now, loggerName) (dc, err)
+//@   property C01
+//@   uses tables notifyspec
+//@   requires tx != nil && s != nil && m != nil
+//@   requires messages.exists(m.ID) && messages.topic_id(m.ID) == m.TopicID &&
+//@            (m.OrderKey == nil <==> messages.order_key$null(m.ID)) && (m.OrderKey != nil ==> messages.order_key(m.ID) == deref(m.OrderKey))
+//@   ensures filtered: [C07] err == nil ==> (dc != nil <==> filter_ok(s, m.Attributes))
+//@   ensures stamps: [C14] dc != nil ==> cb.deliveries.message_id(dc) == m.ID && cb.deliveries.subscription_id(dc) == s.ID &&
+//@             cb.deliveries.message_id$set(dc) && cb.deliveries.subscription_id$set(dc) &&
+//@             cb.deliveries.expires_at$set(dc) && cb.deliveries.expires_at(dc) == now + s.MessageTTL &&
+//@             cb.deliveries.published_at$set(dc) && cb.deliveries.published_at(dc) == now &&
+//@             cb.deliveries.attempt_at$set(dc) && cb.deliveries.attempt_at(dc) == now + s.DeliveryDelay &&
+//@             !cb.deliveries.completed_at$set(dc) && !cb.deliveries.attempts$set(dc) && !cb.deliveries.id$set(dc) && !cb.deliveries.last_attempted_at$set(dc)
+//@   ensures fresh_builder: dc != nil ==> !allocated(dc)
+//@   ensures unordered_unlinked: [C05] dc != nil && !(s.OrderedDelivery && m.OrderKey != nil && deref(m.OrderKey) != "") ==> !cb.deliveries.not_before_id$set(dc)
+//@   ensures pred_same_key: [C05] dc != nil && s.OrderedDelivery && m.OrderKey != nil && deref(m.OrderKey) != "" ==>
+//@             (cb.deliveries.not_before_id$set(dc) ==> (forall p Id :: p == cb.deliveries.not_before_id(dc) ==>
+//@                 deliveries.exists(p) && deliveries.subscription_id(p) == s.ID && deliveries.expires_at(p) > now && same_key(deliveries.message_id(p), m.ID) &&
+//@                 (forall d Id :: deliveries.exists(d) && deliveries.subscription_id(d) == s.ID && deliveries.expires_at(d) > now && same_key(deliveries.message_id(d), m.ID) ==> deliveries.published_at(d) <= deliveries.published_at(p)))) &&
+//@             (!cb.deliveries.not_before_id$set(dc) ==> (forall d Id :: !(deliveries.exists(d) && deliveries.subscription_id(d) == s.ID && deliveries.expires_at(d) > now && same_key(deliveries.message_id(d), m.ID))))
+//@   ensures wakes: [C10] dc != nil ==> wake_on_commit(s.ID)
+//@   ensures wake_frame: forall x uuid.UUID :: wake_on_commit(x) ==> old(wake_on_commit(x)) || x == s.ID
+//@   ensures no_swallowed_failure: [C09] dbfailed() && !old(dbfailed()) ==> err != nil
+//@   modifies CB:deliveries:*, S:dbfailed, S:wake_on_commit
